@@ -16,7 +16,11 @@ EXPLANATION = (
     "sympy_objects.py as vocabulary (arguments bound to the parameter names of __new__) and the class table is read off "
     "the constructed tensor value. Definitions: _build_expanded_itmd is evaluated for fully_expand=False and =True on "
     "model values (index names; polynomials of eri/fock/orb_energy factors, references of other intermediates, Rational "
-    "prefactors, orbital energy denominators) through helpers, closures, loops, comprehensions, temporaries; eri/fock/"
+    "prefactors, orbital energy denominators) through helpers, closures, loops, comprehensions, temporaries; the Expr "
+    "containers of expr_container.py are mutable records: which of their methods (permute, subs, expand, doit, "
+    "substitute_contracted, copy, the arithmetic and op= methods) update the container and return it and which return a new "
+    "container is read off their source by abstract evaluation, .sympy is an immutable snapshot, so aliasing of a "
+    "container that is permuted in place is seen in the evaluated formula; eri/fock/"
     "orb_energy are evaluated through down to the tensor constructors; tensor()/expand_itmd() of a referenced intermediate "
     "are modelled by their contract (validated indices; cached base expression with the targets substituted and every "
     "declared contracted index replaced by a fresh one, undeclared ones leak). The polynomials are brought into a normal "
